@@ -3,6 +3,7 @@
 
 pub mod codec;
 pub mod crc;
+pub mod dfa;
 pub mod ev;
 pub mod front;
 pub mod model;
